@@ -11,8 +11,10 @@ Driver mode `c09` (see harness/c09.cpp for the line format).
     * always (spec-determined, independent of heap addresses and of qsort's handling of equal
       events): the implementation's constraint set must be acyclic (ordering witness checked by
       `acyclicBy`); for cy/cx0 every pair whose scan extents meet must be joined by a chain of
-      constraints whose gaps cover the half sizes (`sepCert`, sound by Props.C09.sepCert_sound)
-      → else SPECFAIL.
+      constraints whose gaps cover the half sizes (`sepCert`, sound by
+      Props.C09.separation_certificate_sound) → else SPECFAIL if the unchained pair overlaps by a
+      positive length in the sweep dimension, DIVERGE if it merely touches (such a pair cannot
+      overlap with positive area, so the property text does not demand the chain).
 (b) removeoverlaps output: SPECFAIL on an escaped exception, non-finite coordinates, border
     globals not restored, width/height changed, an overlap of more than 1e-6 in both axes, or a
     fixed rectangle moved by ≥ 1% of the average rectangle size.
@@ -105,9 +107,12 @@ def checkGen (acc : Acc) (c : Case) (rs : Array Rect) (gbx gby : Rat) (mode : Mo
       if !sepCert ax n impl posf masks then
         if !gapsCover ax impl then
           acc := acc.fail (.specfail s!"{key}: a constraint's gap is smaller than half the two lengths")
-        else match firstUnchained ax n masks with
-          | some (u, v) => acc := acc.fail (.specfail s!"{key}: rectangles {u} and {v} meet in the sweep dimension but no chain of generated constraints separates them")
-          | none => acc := acc.fail (.specfail s!"{key}: separation certificate rejected")
+        else match firstUnchainedStrict ax n masks, firstUnchained ax n masks with
+          | some (u, v), _ => acc := acc.fail (.specfail s!"{key}: rectangles {u} and {v} overlap in the sweep dimension but no chain of generated constraints separates them")
+          -- a pair that only touches cannot overlap with positive area: the model (Open before
+          -- Close) separates it, the property text does not demand it
+          | none, some (u, v) => acc := acc.fail (.diverge s!"{key}: rectangles {u} and {v} touch in the sweep dimension; the model chains them (Open before Close), the implementation does not")
+          | none, none => acc := acc.fail (.specfail s!"{key}: separation certificate rejected")
       else if !gapsExact ax impl then
         acc := acc.fail (.diverge s!"{key}: a gap differs from half the two lengths")
   return acc
